@@ -238,8 +238,9 @@ class MutableAttrMap:
         except KeyError:
             value = attr.default_value
             # If item type attribute is not specified and default value isn't
-            # available, raise error - without valid base we can't keep going
-            if value is None:
+            # available, raise error - without valid base we can't keep going.
+            # Items which are not loaded have no attributes at all
+            if value is None or not item._is_loaded:
                 msg = (
                     'unable to find base value for attribute {} on item type {}'
                 ).format(attr_id, item._type_id)
